@@ -1,2 +1,99 @@
-(* C06 — NetFlow v9 records are decoded exactly as their templates describe (theorems added as proved). *)
-From VF Require Import Base.Prelude Model.Reader Model.Flow Model.Nf9.
+(* C06 — NetFlow v9 records are decoded exactly as their templates describe.
+   The specification side (the w* types of Proofs/IpfixFidelity.v, reused, and the encoders of
+   Proofs/Nf9Fidelity.v) lays an export packet out as RFC 3954 describes: header, template flowsets (id 0),
+   options-template flowsets (id 1, scope and option LENGTHS in octets), data flowsets whose records consist of
+   one content string per template field (scope fields first), 0..3 padding octets.  The theorem is the round trip
+   through the decoder model, for ANY information model, header layout contents, exporter address and cache
+   state. *)
+From VF Require Import Base.Prelude Model.Reader Model.Layout Model.JsonPieces Model.Flow Model.Cache Model.Nf9
+  Spec.FlowWire Proofs.LayoutProofs Proofs.IpfixFidelity Proofs.Nf9Fidelity.
+From VF Require Gen.Layouts.
+
+(* Every well-formed packet decodes to the wire header fields and exactly one entry per data record, in wire
+   order, each listing the record's fields in template order (scope first) with the field type id and the value
+   interpreted by the field type's data type (raw octets when shorter: that is `interpret`); the templates it
+   announces are in force afterwards.  Well-formedness (sets_ok9) includes the implementation's padding rule
+   (tail_ok9: the last record of a flowset plus the padding exceeds 4 octets) - see
+   C06_refuted_last_short_record for what happens otherwise. *)
+Theorem C06_nf9_fidelity_partial : forall (im : infomodel) (a : bytes) (m : amap) hvals sets,
+  fits Gen.Layouts.nf9_header_layout hvals ->
+  field_get "Version" (named9 Gen.Layouts.nf9_header_layout hvals) = 9 ->
+  sets_ok9 im a m sets ->
+  nf9_decode am_ops im Gen.Layouts.nf9_header_layout m a
+     (enc_layout Gen.Layouts.nf9_header_layout hvals ++ flat_map enc_set9 sets)
+  = Ok (final_map9 a m sets,
+        DMsg {| n9_agent := a; n9_header := named9 Gen.Layouts.nf9_header_layout hvals;
+                n9_sets := expected_sets9 im sets |} 0).
+Proof. intros im a m hvals sets. apply nf9_fidelity. Qed.
+Print Assumptions C06_nf9_fidelity_partial.
+
+(* one record, any template or options template, any contents: field type id and typed value per field, in
+   template order, scope fields first *)
+Theorem C06_record_fidelity : forall (im : infomodel) tr ws rest c,
+  rec_matches tr ws -> Forall (wfield9_ok im) ws ->
+  decode_data9 im tr {| data := enc_record9 ws ++ rest; count := c |}
+  = Ok (Some (expected_record9 im ws), {| data := rest; count := c + len (enc_record9 ws) |}).
+Proof. intros im. apply decode_data9_fidelity. Qed.
+Print Assumptions C06_record_fidelity.
+
+(* a template / options-template record is parsed to exactly the announced field specifiers *)
+Theorem C06_template_fidelity : forall t rest c, wtemplate9_ok t ->
+  (if wt_opts t then read_opts_template9 else read_template9) {| data := enc_wtemplate9 t ++ rest; count := c |}
+  = Ok (template_of9 t, {| data := rest; count := c + len (enc_wtemplate9 t) |}).
+Proof. exact read_wtemplate9_fidelity. Qed.
+Print Assumptions C06_template_fidelity.
+
+(* The full statement (without tail_ok9) is FALSE of the code: a data flowset of three 4-octet records, no
+   padding, yields two records.  Evaluated in the kernel; replayed on the implementation it is the recorded
+   finding 'last-record-le4' (known_findings.json). *)
+Definition le4_im : infomodel := fun pen id => if (pen =? 0) && (id =? 8) then Some (8, T_Ipv4Address) else None.
+Definition le4_tpl : wtemplate := {| wt_opts := false; wt_id := 256; wt_scope := []; wt_fields := [{| ws_id := 8; ws_len := 4; ws_ent := None |}] |}.
+Definition le4_rec (x : Z) : list wfield := [{| w_spec := to_fspec {| ws_id := 8; ws_len := 4; ws_ent := None |}; w_content := [10; 0; 0; x]; w_long := false |}].
+Definition le4_sets : list wset := [WTpl false [le4_tpl] []; WData 256 [le4_rec 1; le4_rec 2; le4_rec 3] []].
+
+Theorem C06_refuted_last_short_record :
+  exists im hvals sets,
+    length (expected_sets9 im sets) = 3%nat /\
+    match nf9_decode am_ops im Gen.Layouts.nf9_header_layout [] [192; 0; 2; 1]
+            (enc_layout Gen.Layouts.nf9_header_layout hvals ++ flat_map enc_set9 sets) with
+    | Ok (_, DMsg msg _) => length (n9_sets msg) = 2%nat
+    | _ => False
+    end.
+Proof. exists le4_im, [9; 2; 1000; 2000; 7; 0], le4_sets. vm_compute. split; reflexivity. Qed.
+Print Assumptions C06_refuted_last_short_record.
+
+(* non-vacuity: an options template with a scope field and two option fields, two flowsets, padding *)
+Definition ex_im : infomodel := fun pen id =>
+  if (pen =? 0) && (id =? 8) then Some (8, T_Ipv4Address) else if (pen =? 0) && (id =? 82) then Some (82, T_String)
+  else if (pen =? 0) && (id =? 1) then Some (1, T_Uint64) else None.
+Definition ex_tpl1 : wtemplate := {| wt_opts := true; wt_id := 300; wt_scope := [{| ws_id := 8; ws_len := 4; ws_ent := None |}];
+                                     wt_fields := [{| ws_id := 82; ws_len := 4; ws_ent := None |}; {| ws_id := 1; ws_len := 2; ws_ent := None |}] |}.
+Definition ex_rec (x : Z) : list wfield :=
+  [{| w_spec := to_fspec {| ws_id := 8; ws_len := 4; ws_ent := None |}; w_content := [10; 0; 1; x]; w_long := false |};
+   {| w_spec := to_fspec {| ws_id := 82; ws_len := 4; ws_ent := None |}; w_content := [101; 116; 104; 48]; w_long := false |};
+   {| w_spec := to_fspec {| ws_id := 1; ws_len := 2; ws_ent := None |}; w_content := [3; 232]; w_long := false |}].
+Example C06_instance : sets_ok9 ex_im [10; 0; 0; 1] [] [WTpl true [ex_tpl1] [0; 0]; WData 300 [ex_rec 1; ex_rec 2] [0; 0; 0]; WData 300 [ex_rec 3] []].
+Proof.
+  assert (Hm : forall x, Forall (rec_matches (template_of9 ex_tpl1)) [ex_rec x]).
+  { intros x. constructor; [|constructor]. exists (firstn 1 (ex_rec x)), (skipn 1 (ex_rec x)). repeat split; try reflexivity. discriminate. }
+  assert (Hf : forall x, Forall (wfield9_ok ex_im) (ex_rec x)).
+  { intros x. repeat constructor; cbn; try (eexists; eexists; reflexivity). }
+  cbn [sets_ok9]. repeat split.
+  - repeat constructor; cbn; try lia; try discriminate; try (intros; discriminate).
+  - repeat constructor.
+  - discriminate.
+  - cbn; lia.
+  - exists (template_of9 ex_tpl1). split; [lia|]. split; [vm_compute; reflexivity|].
+    constructor; [apply (Forall_inv (Hm 1))|apply Hm].
+  - constructor; [apply Hf|constructor; [apply Hf|constructor]].
+  - repeat constructor; vm_compute; reflexivity.
+  - discriminate.
+  - cbn; lia.
+  - vm_compute. intros H; discriminate H.
+  - exists (template_of9 ex_tpl1). split; [lia|]. split; [vm_compute; reflexivity|]. apply Hm.
+  - constructor; [apply Hf|constructor].
+  - repeat constructor; vm_compute; reflexivity.
+  - discriminate.
+  - cbn; lia.
+  - vm_compute. intros H; discriminate H.
+Qed.
